@@ -236,3 +236,25 @@ T('C09', 'inf-variance-inlined', [(INF, "                variance = 1.0 / np.sum
                                   (MI, "        variance = 1.0 / np.sum(1.0 / variances)\n        estimate = variance * np.sum(estimates / variances)\n        return max(1, estimate)",
                                        "        estimate = np.sum(estimates / variances) / np.sum(1.0 / variances)\n        return max(1, estimate)")])
 K('C09', 'li-approx-default-total', [(LI, "            model = RegionGraph(self.domain, cliques, total, convex=False, iters=self.inner_iters)", "            model = RegionGraph(self.domain, cliques, convex=False, iters=self.inner_iters)")], 'pass-through')
+
+# ------------------------------------------------------------------ C04
+K('C04', 'setup-no-break', [(INF, "                    self.groups[cl].append(m)\n                    break", "                    self.groups[cl].append(m)")], 'exactly-once')
+K('C04', 'loss-c-squared', [(INF, "                c = 1.0/noise\n", "                c = 1.0/noise**2\n")], None)
+K('C04', 'grad-drops-c', [(INF, "                    grad = c*(Q.T @ diff)", "                    grad = Q.T @ diff")], 'gradient-form')
+K('C04', 'grad-l1-uses-diff', [(INF, "                    grad = c*(Q.T @ sign)", "                    grad = c*(Q.T @ diff)")], 'gradient-form')
+K('C04', 'loss-not-halved', [(INF, "                    loss += 0.5*(diff @ diff)", "                    loss += (diff @ diff)")], 'loss-form')
+K('C04', 'lip-noise-not-squared', [(INF, "                    eigs[cl] += eig * n / p / noise**2", "                    eigs[cl] += eig * n / p / noise")], 'lipschitz-form')
+K('C04', 'lip-model-order', [(INF, "            for cl in sorted(self.model.cliques, key=self.model.domain.size):\n                if set(proj) <= set(cl):\n                    n = self.domain.size(cl)",
+                                   "            for cl in self.model.cliques:\n                if set(proj) <= set(cl):\n                    n = self.domain.size(cl)")], 'sibling-order')
+K('C04', 'setup-model-order', [(INF, "            for cl in sorted(cliques, key=model.domain.size):", "            for cl in cliques:")], 'sibling-order')
+K('C04', 'fix-no-list-to-tuple', [(INF, "            if type(proj) is list:\n                proj = tuple(proj)\n", "")], 'spelling')
+K('C04', 'fix-tuple-of-str', [(INF, "            if type(proj) is not tuple:\n                proj = (proj,)", "            if type(proj) is not tuple:\n                proj = tuple(proj)")], 'spelling')
+K('C04', 'loss-skip-project-full-clique', [(INF, "                mu2 = mu.project(proj)", "                mu2 = mu if len(proj) == len(cl) else mu.project(proj)")], 'projection-order')
+K('C04', 'loss-grad-wrong-domain', [(INF, "                gradient[cl] += self.Factor(mu2.domain, grad)", "                gradient[cl] += self.Factor(mu.domain.project(sorted(proj)), grad)")], 'projection-order')
+K('C04', 'lip-n-over-p-dropped', [(INF, "                    eigs[cl] += eig * n / p / noise**2", "                    eigs[cl] += eig / noise**2")], 'lipschitz-form')
+K('C04', 'estimate-skips-fix', [(INF, "        measurements = self.fix_measurements(measurements)\n        options['callback'] = callback", "        self.fix_measurements(measurements)\n        options['callback'] = callback")], 'spelling')
+T('C04', 'loss-diff-divided', [(INF, "                diff = c*(Q @ x - y)", "                diff = (Q @ x - y) / noise")])
+T('C04', 'loss-grad-via-dot', [(INF, "                    grad = c*(Q.T @ diff)", "                    grad = Q.T.dot(diff) * c")])
+T('C04', 'loss-sum-of-squares', [(INF, "                    loss += 0.5*(diff @ diff)", "                    loss += 0.5*np.sum(diff**2)")])
+T('C04', 'lip-term-regrouped', [(INF, "                    eigs[cl] += eig * n / p / noise**2", "                    eigs[cl] += (eig / noise**2) * (n / p)")])
+T('C04', 'both-sorted-via-self-domain', [(INF, "            for cl in sorted(cliques, key=model.domain.size):", "            for cl in sorted(cliques, key=self.domain.size):")])
